@@ -129,10 +129,45 @@ def attribute(stream, case, impl, model, why):
     t = case.split()
     if stream == 'treehint' and why.endswith('!unsound') and ('none' in t or 'empty' in t) and any(re.fullmatch(r'(\w:)*F\d+', x) for x in t):
         return 'F32'
+    # F8: a SPAN callsite that a span-scoped directive of the env-filter cares about is answered `always` whatever its level
+    if stream == 'envleaf' and 'always-but-rejected' in why and why.split()[-1] == 's':
+        return 'F8'
     return None
 
 _sc = Stream('stackchain', 'h_chain', mode='modelchain', gen=_gen_chain, nontrivial=lambda c, o: _c07('nontrivial')(c, o), spec_mode='spec')
 _sc.env = {'TV_HINT_GATE': '1'}
+
+# ---- the env-filter with span-scoped directives, asked directly: summary (register_callsite) against decision (enabled)
+from checks import C11 as _c11
+def gen_envleaf(rng, tier):
+    n = 300 if tier == 'quick' else 8000
+    for _ in range(n):
+        case = _c11.gen_dyn_case(rng)
+        head, ops = case.split(' ;; ')
+        ops = [o for o in ops.split(' ; ') if o.strip()]
+        out = []
+        for op in ops:
+            out.append(op)
+            if rng.random() < 0.35:
+                kind = rng.choice(['s', 's', 'e'])
+                name = rng.choice(_c11.DYN_SPANS) if kind == 's' else 'event'
+                out.append('qi %s %s %s %d %s' % (kind, name, rng.choice(_c11.DYN_TARGETS), rng.randrange(1, 6), rng.choice(_c11.DYN_FIELDSETS)))
+        if not any(o.startswith('qi ') for o in out): out.append('qi s req app 4 -')
+        yield head + ' ;; ' + ' ; '.join(out)
+
+def judge_envleaf(case, out):
+    ops = case.split(' ;; ')[1].split(' ; '); outs = out.split(' ')
+    if len(ops) != len(outs): return 'bad ' + out[:60]
+    for k, (op, o) in enumerate(zip(ops, outs)):
+        if not op.startswith('qi '): continue
+        if o.startswith('i:n') and o.endswith('q:1'): return 'bad never-but-accepted@%d' % k
+        if o.startswith('i:a') and o.endswith('q:0'): return 'bad always-but-rejected@%d %s' % (k, op.split()[1])
+    return 'ok'
+
+_envleaf = Stream('envleaf', 'h_envdyn', mode='modeldyn', gen=gen_envleaf,
+                  nontrivial=lambda case, out: 'i:a' in out and 'q:0' in out and ' en ' in case)
+_envleaf.py_judge = judge_envleaf
+_envleaf.valid_case = _c11.valid_dyn
 
 PROPERTY = {
     'manifest': {
@@ -149,12 +184,13 @@ PROPERTY = {
                 "Repaired on the way: F31 (an empty Vec capped its neighbours' hint at OFF). Known findings F6 (Vec register_callsite), F8 (EnvFilter [span]=level) are stack/EnvFilter-level.",
         'technique': 'Lean 4 proof (structural induction on the expression type) + differential run against the real combinators',
     },
-    'lean_module': 'TracingModel.Props.C08T',
-    'leanchecker_modules': ['TracingModel.Props.C08', 'TracingModel.Props.C08S'],
+    'lean_module': 'TracingModel.Props.C08E',
+    'leanchecker_modules': ['TracingModel.Props.C08', 'TracingModel.Props.C08S', 'TracingModel.Props.C08T'],
     'namespace': 'C08',
     'units': [],
-    'required_theorems': ['C08.interest_sound', 'C08.hint_sound', 'C08.stack_interest_sound', 'C08.stack_hint_sound', 'C08.tree_agrees', 'C08.stack_agrees', 'C08.f32_witness'],
-    'streams': [_st, _sk, _sc, _sw, _th],
+    'required_theorems': ['C08.interest_sound', 'C08.hint_sound', 'C08.stack_interest_sound', 'C08.stack_hint_sound', 'C08.tree_agrees', 'C08.stack_agrees', 'C08.f32_witness',
+                          'C08.env_never_sound', 'C08.env_always_sound_partial', 'C08.f8_witness'],
+    'streams': [_st, _sk, _sc, _sw, _th, _envleaf],
     'rule': 'random filter expressions (depth <= 4 quick / 6 thorough) over level thresholds, Targets strings, static closures with/without (honest) hints, context-dependent closures with/without hint and callsite closure, '
             'None/Some, and/or/not, reload and Box wrappers; each evaluated on 7 targets x 5 levels x span/event x 4 field sets in two contexts through the real Filtered layer; non-trivial = at least 2 operators/leaves and >=2 distinct interests. Streams stack / stackchain: the stack and history generators of C07 with the max-level-hint gate switched on in the front end; non-trivial as in C07',
     'trusted_base': ['hand-written model Core/FilterExpr.lean', 'executor h_filters (builds Box<dyn Filter> trees with the real FilterExt combinators)', 'hand-written models Core/Filtering.lean, Core/Reload.lean (stackInterest, stackHint)', 'executors h_layers, h_chain with TV_HINT_GATE'],
